@@ -65,6 +65,17 @@ class Reach(object):
     def report(self):
         return {n: [len(self.lines[n]), self.total[n]] for n in self.lines}
 
+    def detail(self):
+        """-> {anchor name: {'file': path, 'present': [lines], 'seen': [lines]}}"""
+        out = {}
+        for code, name in self.codes.items():
+            present = set(l for (_, _, l) in code.co_lines() if l is not None)
+            present.discard(code.co_firstlineno)
+            d = out.setdefault(name, {'file': code.co_filename, 'present': set(), 'seen': set()})
+            d['present'] |= present
+            d['seen'] |= (self.lines.get(name, set()) & present)
+        return {n: {'file': d['file'], 'present': sorted(d['present']), 'seen': sorted(d['seen'])} for n, d in out.items()}
+
     def watched(self, watch):
         """watch: {anchor name: regex}.  -> {anchor name: {'want': [line numbers whose source matches], 'seen': [those executed]}}
         (the deciding statements of a function -- e.g. every place a switch is turned back on -- must be executed by the workload)"""
